@@ -115,7 +115,11 @@ def ws(case, res):
                 nextra = rng.choice([0, 1, 2, 3, 3, 8, 14, 25])
                 for k_ in range(nextra):
                     lines.append(rng.choice([b"Origin: http://x.example", b"X-Y%d: " % k_ + b"z" * rng.randrange(0, 120), b"Cookie: a=b; c=d; n%d=" % k_ + b"v" * rng.randrange(10, 90), b"Pragma: no-cache",
-                                             b"User-Agent: Mozilla/5.0 (X11; Linux x86_64) AppleWebKit/537.36 (KHTML, like Gecko) Chrome/90.0 Safari/537.36", b"Accept-Language: de-DE,de;q=0.9,en;q=0.8"]))
+                                             b"User-Agent: Mozilla/5.0 (X11; Linux x86_64) AppleWebKit/537.36 (KHTML, like Gecko) Chrome/90.0 Safari/537.36", b"Accept-Language: de-DE,de;q=0.9,en;q=0.8",
+                                             # unknown headers whose names only START like the ones the handshake looks at
+                                             b"Sec-WebSocket-Key1: 4 @1  46546xW%0l 1 5", b"Sec-WebSocket-Key-Id: " + base64.b64encode(bytes(rng.randrange(256) for _ in range(16))),
+                                             b"Sec-WebSocket-Version-Supported: 8, 7", b"Sec-WebSocket-Protocol-Hint: soap", b"Sec-WebSocket-Extensions-Policy: none",
+                                             b"X-Sec-WebSocket-Key: AAAAAAAAAAAAAAAAAAAAAA==", b"Sec-WebSocket-Ke: short", b"Upgrade-Insecure-Requests: 1", b"Connection-Info: close"]))
                 rng.shuffle(lines)
                 if nextra >= 8 and rng.random() < 0.6:
                     # the key early, far in front of the end of the header block
